@@ -26,7 +26,7 @@ ASSUMPTIONS = ["following the server's smaller block size in later Block1 reques
                "a non-block answer in the middle of a Block2 transfer may be accepted as the complete representation"]
 EXPECTED_PROBES = ["block1_multi", "block2_multi", "szx_reduced_block1", "szx_reduced_block2", "misbehave_b1_wrong_num",
                    "misbehave_b1_more_on_final", "misbehave_b2_short", "misbehave_b2_skip", "misbehave_b2_etag_change",
-                   "misbehave_b2_etag_presence_change", "block1_acked_without_more_bit", "block1_transfer_rejected_midway", "unfragmented_request_refused_with_size_hint", "retransmitted_block", "unfragmented_1124"]
+                   "misbehave_b2_etag_presence_change", "block1_acked_without_more_bit", "block1_transfer_rejected_midway", "unfragmented_request_refused_with_size_hint", "retransmitted_block", "unfragmented_1124", "separate_response", "empty_ack_lost_response_delivered"]
 
 LENGTHS = [0, 1, 15, 16, 17, 31, 32, 33, 63, 64, 65, 127, 128, 129, 511, 512, 513, 1023, 1024, 1025, 1124, 1125,
            2047, 2048, 2049, 3000, 5000]
@@ -78,6 +78,11 @@ def gen_transfer(r, i):
         tr["s1_reject_at"] = r.randrange(0, 3)
     elif r.chance(0.08):
         tr["s1_hint"] = True
+    if r.chance(0.2):
+        # the server (a proxy, a slow back end) answers some of the block requests with an empty ACK and a separate
+        # response; the empty ACK may get lost while the response gets through
+        tr["sep"] = {"at": sorted(set(r.randrange(0, 6) for _ in range(r.randint(1, 3)))), "delay": r.choice([0.0, 0.05, 0.5, 3.0]),
+                     "con": r.chance(0.6), "lose_ack": r.chance(0.5)}
     return tr
 
 
@@ -111,6 +116,13 @@ def systematic(tier):
                 out.append({"transfers": [{"id": 0, "method": "POST", "qlen": ln, "rlen": ln, "s1": s, "s1_reduce": None,
                                            "s2": s, "s2_reduce": None, "cexp": c, "etag": True, "misbehave": None,
                                            "at": 0, "t": 0.0}], "net": {}})
+    for at in ([0], [1], [2], [1, 2], [0, 1, 2, 3]):
+        for lose in (False, True):
+            for con in (True, False):
+                for method, ql, rl in (("GET", 0, 200), ("POST", 200, 200), ("PUT", 200, 0)):
+                    out.append({"transfers": [{"id": 0, "method": method, "qlen": ql, "rlen": rl, "s1": 2, "s1_reduce": None,
+                                               "s2": 2, "s2_reduce": None, "cexp": 6, "etag": True, "misbehave": None, "at": 0, "t": 0.0,
+                                               "sep": {"at": at, "delay": 0.05, "con": con, "lose_ack": lose}}], "net": {}})
     for mb in MISBEHAVE:
         for at in (0, 1, 2):
             out.append({"transfers": [{"id": 0, "method": "POST", "qlen": 200, "rlen": 200, "s1": 1, "s1_reduce": None,
@@ -175,6 +187,9 @@ class RefServer7959(ScriptedEndpoint):
         return st["repr"]
 
     def handle(self, msg, src, data):
+        if msg is not None and msg["code"] == 0 and msg["type"] in (rc.ACK, rc.RST):
+            getattr(self, "sep_open", {}).pop((src, msg["mid"]), None)
+            return
         if msg is None or not (1 <= msg["code"] < 32):
             return
         key = (src, msg["mid"])
@@ -193,6 +208,36 @@ class RefServer7959(ScriptedEndpoint):
         if msg["type"] == rc.NON:
             resp["mid"] = self.next_mid()
         resp["token"] = msg["token"]
+        sep = spec.get("sep")
+        st["nreq"] = st.get("nreq", 0) + 1
+        if sep and msg["type"] == rc.CON and (st["nreq"] - 1) in sep["at"]:
+            # empty ACK now (unless it "gets lost": then only the retransmitted request is acknowledged), the response
+            # separately a little later -- confirmable (retransmitted until acknowledged) or not
+            self.sim.probe("separate_response")
+            ack = rc.encode({"type": rc.ACK, "code": 0, "mid": msg["mid"], "token": b"", "options": [], "payload": b""})
+            self.dedup[key] = ack
+            if sep.get("lose_ack"):
+                self.sim.probe("empty_ack_lost_response_delivered")
+                self.sim.net.count("fault.drop_ack")
+            else:
+                self.send(src, raw=ack)
+            resp["type"] = rc.CON if sep.get("con") else rc.NON
+            resp["mid"] = self.next_mid()
+            raw = rc.encode(resp)
+            if not hasattr(self, "sep_open"):
+                self.sep_open = {}
+            st.setdefault("sep_sent", []).append(raw)
+
+            def tx(n=0, raw=raw, k=(src, resp["mid"])):
+                if n and k not in self.sep_open:
+                    return
+                self.send(src, raw=raw)
+                if sep.get("con") and n < 4:
+                    self.loop.after(2.0 * 2 ** n, tx, n + 1)
+            if sep.get("con"):
+                self.sep_open[(src, resp["mid"])] = True
+            self.loop.after(sep.get("delay", 0.05), tx)
+            return
         raw = rc.encode(resp)
         self.dedup[key] = raw
         self.send(src, raw=raw)
@@ -484,6 +529,12 @@ def execute(sim, scn):
             sim.nontrivial = True
         # ---- Block2 requests ask for NUM x size = bytes received so far: checked through the server's view
         # (RefServer answers 4.00 'beyond'/a wrong slice otherwise and the body comparison below fails)
+        if not rec["done"] and any(not any(d[2] for e in wire if e["data"] == raw and e["src"] == server.addr for d in e["deliveries"])
+                                   for raw in st.get("sep_sent", [])):
+            # a separate response of which no copy ever arrived (the server gave up, or it was not confirmable), after
+            # the request had been acknowledged: nobody can tell the client; narrow relaxation, counted
+            sim.probe("separate_response_never_arrived")
+            continue
         if not rec["done"]:
             # the library keeps waiting only if an exchange is still open; CON retransmission bounds that
             sim.violation("C05/transfer-never-completed", ident)
